@@ -18,6 +18,21 @@ func (w *binaryWriter) w(x interface{}) {
 		return
 	}
 
+	// encoding/binary knows no platform-sized integers: they travel as the fixed-size type of the same width
+	switch v := x.(type) {
+	case int:
+		if Int.Size() == 8 {
+			x = int64(v)
+		} else {
+			x = int32(v)
+		}
+	case uint:
+		if Uint.Size() == 8 {
+			x = uint64(v)
+		} else {
+			x = uint32(v)
+		}
+	}
 	w.err = binary.Write(w, binary.LittleEndian, x)
 	w.seq++
 }
@@ -39,7 +54,30 @@ func (r *binaryReader) Read(data interface{}) {
 	if r.err != nil {
 		return
 	}
-	r.err = binary.Read(r.Reader, binary.LittleEndian, data)
+	switch v := data.(type) {
+	case *int:
+		if Int.Size() == 8 {
+			var x int64
+			r.err = binary.Read(r.Reader, binary.LittleEndian, &x)
+			*v = int(x)
+		} else {
+			var x int32
+			r.err = binary.Read(r.Reader, binary.LittleEndian, &x)
+			*v = int(x)
+		}
+	case *uint:
+		if Uint.Size() == 8 {
+			var x uint64
+			r.err = binary.Read(r.Reader, binary.LittleEndian, &x)
+			*v = uint(x)
+		} else {
+			var x uint32
+			r.err = binary.Read(r.Reader, binary.LittleEndian, &x)
+			*v = uint(x)
+		}
+	default:
+		r.err = binary.Read(r.Reader, binary.LittleEndian, data)
+	}
 	r.seq++
 }
 
